@@ -18,6 +18,83 @@ RECLAIM = ("box_from_raw", "arc_from_raw", "vec_from_raw_parts", "drop_in_place"
 INTO_INNER = "cglue::trait_group::IntoInner::into_inner"
 
 
+PASS_THROUGH = ("Option::<T>::take", "Option::<T>::unwrap", "std::ops::Try::branch", "cglue::arc::CArc::<T>::take", "Option::<T>::as_ref", "Option::<T>::as_mut")
+
+
+def arg_roots(o):
+    return {x[1] for x in mir.walk(o) if isinstance(x, tuple) and x and x[0] == "arg"}
+
+
+def moved_from(o, roots, via_clone_slot=True):
+    """True when origin `o` is a pure projection of the argument(s) `roots`: fields, derefs, Option plumbing, or the result of calling
+    the *same* value's stored clone function.  Any other call (an allocation, a conversion of a local buffer) makes it a fresh pointer."""
+    if not isinstance(o, tuple) or not o:
+        return False
+    k = o[0]
+    if k == "arg":
+        return o[1] in roots
+    if k in ("field", "deref", "downcast"):
+        return moved_from(o[1], roots)
+    if k == "ref":
+        return moved_from(o[1], roots)
+    if k == "cast":
+        return moved_from(o[2], roots)
+    if k == "agg":
+        ops = o[4] if len(o) > 4 else ()
+        return bool(ops) and all(moved_from(x, roots) for x in ops)
+    if k == "call":
+        return any(o[1].endswith(sfx) for sfx in PASS_THROUGH) and all(moved_from(a, roots) for a in o[2])
+    if k == "icall" and via_clone_slot:
+        f = mir.deepstrip(o[1])
+        return f[0] == "field" and f[2] == "clone_fn" and arg_roots(f) <= roots and all(moved_from(a, roots) for a in o[2])
+    if k == "phi":
+        return all(moved_from(x, roots) for x in o[1:] if isinstance(x, tuple))
+    return False
+
+
+def check_slot_travel(ck, mine):
+    """B-slots-travel-with-their-pointer: a value may carry function pointers copied from another value only together with that
+    value's own pointer (moved out of it, or produced by its stored clone function).  Copied slots around a freshly allocated
+    buffer would hand memory of the running module to the functions of the module that created the *source* value."""
+    n = 0
+    for p, fn in sorted(mine.items()):
+        body = mir.Body(fn)
+        for i in sorted(body.live_blocks()):
+            for st in body.blocks[i]["s"]:
+                if not (st["k"] == "assign" and st["r"]["k"] == "agg" and st["r"].get("ak") == "adt" and st["r"]["adt"] in OWNERS):
+                    continue
+                fields = dict(zip(st["r"]["fields"], st["r"]["ops"]))
+                copied = {}
+                for fname, op in fields.items():
+                    if not fname.endswith("_fn"):
+                        continue
+                    o = body.origin_operand(op)
+                    if o[0] == "agg" and o[2] == "Some" and len(o) > 4 and o[4]:
+                        o = o[4][0]
+                    while o[0] == "cast":
+                        o = o[2]
+                    if o[0] == "fnconst" or (o[0] == "agg" and not (len(o) > 4 and o[4])) or o[0] == "const":
+                        continue
+                    copied[fname] = o
+                n += 1
+                key = "cglue/%s/%s" % (p, st["r"]["adt"].split("::")[-1])
+                if not copied:
+                    ck.ob("B-slots-travel-with-their-pointer", key, True, sample={"fn": p, "slots": "function items / None"})
+                    continue
+                roots = set()
+                for o in copied.values():
+                    roots |= arg_roots(o)
+                ptrs = {fname: body.origin_operand(op) for fname, op in fields.items() if fname in ("instance", "data")}
+                bad = [fname for fname, o in ptrs.items() if not moved_from(o, roots)]
+                slots_ok = all(moved_from(o, roots, via_clone_slot=False) for o in copied.values()) and len(roots) == 1
+                ck.ob("B-slots-travel-with-their-pointer", key, not bad and slots_ok and ptrs,
+                      "%s builds a %s whose %s are copied from its argument while %s: the stored functions belong to the module that created the "
+                      "source value, the pointer does not" % (p, st["r"]["adt"].split("::")[-1], sorted(copied),
+                                                              "; ".join("%s = %s" % (b, mir.fmt(ptrs[b])[:120]) for b in bad) or "the slots come from several values"),
+                      sample={"fn": p, "copied_slots": sorted(copied)})
+    return n
+
+
 def run(tier):
     ck = report.Check("C05", tier, level="other")
     f = facts.cfg_cglue()
@@ -34,6 +111,7 @@ def run(tier):
                     if fld.endswith("_fn"):
                         stored.setdefault(fp, []).append((p, adt, fld, targs))
     ck.floor("functions stored into *_fn slots", len(stored), 6)
+    ck.floor("owner values constructed", check_slot_travel(ck, mine), 11)
     for fp, uses in sorted(stored.items()):
         sf = fns.get(fp)
         if not ck.require(sf is not None, "stored function %s" % fp):
